@@ -51,10 +51,13 @@ def read(kind, mode, text):
             pre, post, sep = 'export type T0 = "', '";', '" | "'
         else:
             pre, post, sep = 'export const T0Schema = z.enum(["', '"]);', '", "'
-        empty = "export type T0 = ;" if mode == "plain" else "export const T0Schema = z.enum([]);"
+        old_empty = "export type T0 = ;" if mode == "plain" else "export const T0Schema = z.enum([]);"
+        never = "export type T0 = never;" if mode == "plain" else "export const T0Schema = z.never();"
         for l in lines:
-            if l.rstrip() == empty:          # every variant skipped (not TypeScript in plain mode: C01's subject)
+            if l.rstrip() == never:          # every variant skipped: no literal
                 return []
+            if l.rstrip() == old_empty:      # the old, invalid spelling: a distinct observation, so it is reported
+                return ["<empty literal list>"]
             if l.startswith(pre) and l.rstrip().endswith(post):
                 body = l.rstrip()[len(pre):-len(post)]
                 return [unescape(x) for x in body.split(sep)]
